@@ -10,7 +10,7 @@ from ..gen_lean import Def
 from ..runner import Corr, Failure
 from .c03 import KINDS, _mk
 
-LEAN_MODULES = ['SvgVerif.Props.C10']
+LEAN_MODULES = ['SvgVerif.Props.C10', 'SvgVerif.Props.C04RoundTrip']
 
 
 class _Ang:
@@ -144,7 +144,8 @@ def gen_defs(spt, salt=0):
     return defs
 
 
-GEN = {'C10': gen_defs}
+from . import c04 as _c04
+GEN = {'C10': gen_defs, 'C04': _c04.gen_defs}     # C04RoundTrip (arcs) uses C04's traced Arc.point
 ASSUMPTIONS = [
     'rotation: exp(1j*radians(deg)) enters the traces as an opaque unit complex w (numpy.exp/radians are library oracles)',
     'arcs: the traces cover the defining data handed to Arc(); that an Arc is the F.6.5 arc of its data is C04; transform() on arcs is a known finding (raises for every matrix under the installed numpy) and is not claimed',
